@@ -227,7 +227,9 @@ func worldRoutes(w *World) {
 		hostChoices := []string{"www.site.example.test", "WWW.SITE.example.test", "www.site.example.test:8080", "www.site.example.test.", "api.site.example.test", "x.site.example.test",
 			"deep.x.site.example.test", "foo.example.test", "unknown.test", "www.other.example.test", "site.example.test"}
 		host := hostChoices[r.Intn(len(hostChoices))]
-		path := []string{"/", "/a", "/ab", "/a/b", "/a/b/c/d", "/abc", "/zzz", "/a/bb"}[r.Intn(8)]
+		// (dot segments are not resolved by the vhost: a location matches the request target as sent, and the
+		// credential check must use the very route the request is forwarded to)
+		path := []string{"/", "/a", "/ab", "/a/b", "/a/b/c/d", "/abc", "/zzz", "/a/bb", "/a/../zzz", "/a/b/../../x", "/a/./b", "/a/b/..", "/a/b/../c"}[r.Intn(13)]
 		absolute := r.Intn(4) == 0
 		var hs []string
 		authUser, authPwd, proxyUser, proxyPwd := "", "", "", ""
